@@ -26,7 +26,9 @@ def contexts(draw, rule_names=True, io_modes=('utf8', 'utf8', 'utf8_strict')):
             'hashseed': draw(st.sampled_from([None, 0, 1, 77, 4242])),
             'io': draw(st.sampled_from(list(io_modes))),
             # the script is started directly or through a symbolic link elsewhere (an "installed" launcher in ~/bin)
-            'launcher': draw(st.sampled_from(['direct', 'direct', 'symlink']))}
+            'launcher': draw(st.sampled_from(['direct', 'direct', 'symlink'])),
+            # python -O / PYTHONOPTIMIZE=1 (some container images set it): assert statements are not executed
+            'optimize': draw(st.integers(0, 3)) == 0}
 
 
 DEFAULT = {'cwd': 'tool', 'rule': 'T', 'hashseed': 0, 'io': 'utf8'}
@@ -41,11 +43,19 @@ def env_for(ctx):
         env.pop('PYTHONHASHSEED', None)        # random per process, as for a user
     else:
         env['PYTHONHASHSEED'] = str(ctx['hashseed'])
+    if ctx.get('optimize'):
+        env['PYTHONOPTIMIZE'] = '1'
+    else:
+        env.pop('PYTHONOPTIMIZE', None)
     io = ctx.get('io', 'utf8')
     if io == 'utf8_strict':
         env['PYTHONIOENCODING'] = 'utf-8'      # what an ordinary xx_XX.UTF-8 terminal / pipe gives: errors='strict'
     elif io == 'ascii':
         env['PYTHONIOENCODING'] = 'ascii'
+    elif io == 'c_locale':
+        # a process whose locale encoding is not UTF-8 at all (LC_ALL=C without UTF-8 mode or coercion; a legacy locale; Windows ANSI):
+        # files opened without an explicit encoding are read and written as ASCII
+        env.update(LC_ALL='C', LANG='C', PYTHONUTF8='0', PYTHONCOERCECLOCALE='0')
     return env
 
 
@@ -84,4 +94,4 @@ def script_path(root, script, ctx):
 
 def label(ctx):
     return ['cwd_' + ctx.get('cwd', 'tool'), 'io_' + ctx.get('io', 'utf8'), 'hashseed_' + ('random' if ctx.get('hashseed') is None else 'fixed')] + \
-        (['rule_name_unusual'] if ctx.get('rule', 'T') != 'T' else []) + (['started_through_symlink'] if ctx.get('launcher') == 'symlink' else [])
+        (['rule_name_unusual'] if ctx.get('rule', 'T') != 'T' else []) + (['started_through_symlink'] if ctx.get('launcher') == 'symlink' else []) + (['python_optimize'] if ctx.get('optimize') else [])
